@@ -151,6 +151,9 @@ pub fn form_text(form: &str) -> &'static str {
         "BLOCK" => " /* a block */ ",
         "BLOCK_TIGHT" => "/*c*/",
         "NESTED" => "/*a/*b*/c*/",
+        "NESTED_SLASH" => "/*a/*/b*/c*/",
+        "BLOCK_STARS" => "/**c**/",
+        "NESTED_STAR" => "/*a/*b*/*c*/",
         "BLOCK_QUOTES" => " /* \"quoted\" { braces } 'x' */ ",
         "LINE_KEYWORDS" => " -- END BEGIN ::= SEQUENCE\n",
         "BLOCK_NONASCII" => " /* Grüße – 日本語 */ ",
@@ -295,8 +298,39 @@ pub fn drive(args: &[String]) -> i32 {
         }
         evs
     });
+    // 1b. the gaps of the gap grammar itself (every complete gap MC_C13 generates): each one is put after one token of a generated
+    //     input -- input and boundary rotate -- and, every `all_every`-th one, after every token at once
+    if let Some(gp) = util::arg(args, "--gaps") {
+        let gaps = util::read_ndjson(gp);
+        let all_every: usize = util::arg(args, "--gaps-all-every").and_then(|s| s.parse().ok()).unwrap_or(50);
+        let small: Vec<&Input> = ok_inputs.iter().copied().take(nsets.max(1)).filter(|i| i.text.len() < 1500).collect();
+        let small = if small.is_empty() { ok_inputs.iter().copied().take(1).collect() } else { small };
+        let jobs: Vec<(usize, &Value)> = gaps.iter().enumerate().collect();
+        let gen = util::par_chunks(&jobs, 64, util::threads(), |_, chunk| {
+            run::install_panic_hook();
+            let mut evs = vec![];
+            for (gi, g) in chunk {
+                let syms: Vec<&str> = g.as_array().map(|a| a.iter().filter_map(|x| x.as_str()).collect()).unwrap_or_default();
+                let text: String = syms.iter().map(|c| match *c { "s" => ' ', "n" => '\n', "d" => '-', "t" => '*', "l" => '/', _ => 'c' }).collect();
+                let inp = small[gi % small.len()];
+                let ti = (gi * 31 + gi / small.len()) % (inp.toks.len() - 1);
+                let mut modes: Vec<(&str, Vec<(usize, &str)>)> = vec![("generated gap", vec![(ti, text.as_str())])];
+                if gi % all_every == 0 {
+                    modes.push(("generated gap everywhere", (0..inp.toks.len() - 1).map(|i| (i, text.as_str())).collect()));
+                }
+                for (mode, at) in modes {
+                    let obs = observe(&relayout(&inp.text, &inp.toks, &at));
+                    evs.push(json!({"ev": "relayout", "mode": mode, "form": "GEN", "gap": syms, "gaptext": text.replace('\n', "\\n"), "cl": inp.toks[ti].class, "cr": inp.toks[ti + 1].class,
+                                    "input": inp.name, "encctl": false, "base_status": inp.base.0, "status": obs.0, "same": obs == inp.base,
+                                    "asn": format!("...{}...  with {:?} after token {}", snippet(&inp.text, &inp.toks, ti), text, &inp.text[inp.toks[ti].start..inp.toks[ti].end])}));
+                }
+            }
+            evs
+        });
+        events.extend(gen);
+    }
     // 2. sweeps: every boundary of an input at once with one form, and random subsets with random forms
-    let forms: Vec<&str> = vec!["SP", "TAB", "LF", "CRLF", "LINE", "LINE_NOSPACE", "INLINE", "INLINE_TIGHT", "BLOCK", "BLOCK_TIGHT", "NESTED",
+    let forms: Vec<&str> = vec!["SP", "TAB", "LF", "CRLF", "LINE", "LINE_NOSPACE", "INLINE", "INLINE_TIGHT", "BLOCK", "BLOCK_TIGHT", "NESTED", "NESTED_SLASH", "BLOCK_STARS", "NESTED_STAR",
                                 "BLOCK_QUOTES", "LINE_KEYWORDS", "BLOCK_NONASCII", "MIXED"];
     let sweep_inputs: Vec<&Input> = ok_inputs.iter().copied().take(40).chain(ok_inputs.iter().copied().skip(nsets)).collect();
     let sweeps = util::par_chunks(&sweep_inputs, 2, util::threads(), |base, chunk| {
